@@ -7,7 +7,8 @@ from vlib import *
 
 OVERLAY = {"p2p/net/swarm/zz_c05_verif_test.go": "harness/overlay/swarm/c05_verif_test.go",
            "p2p/net/swarm/zz_c05w_verif_test.go": "harness/overlay/swarm/c05w_verif_test.go",
-           "p2p/net/swarm/zz_c05r_verif_test.go": "harness/overlay/swarm/c05r_verif_test.go"}
+           "p2p/net/swarm/zz_c05r_verif_test.go": "harness/overlay/swarm/c05r_verif_test.go",
+           "p2p/net/swarm/zz_c05s_verif_test.go": "harness/overlay/swarm/c05s_verif_test.go"}
 PKG = "p2p/net/swarm"
 
 
@@ -132,6 +133,9 @@ def nontrivial(line):
             return any(ob["waitingOnFd"] > 0 or ob["waitingOnPeer"] for _, ob in lim_steps(t))
     except Exception:
         return False
+    if t and t[0] == 3:
+        # dialSync: some caller left (cancelled) while another one was still waiting
+        return b" 2 " in line
     if t and t[0] == 4:
         # ranker: at least three addresses, both IP versions present
         n = t[1]
@@ -205,6 +209,8 @@ def key(tag, toks, d):
         return "C05:worker:%s:%s" % (WCLAUSE.get(d[2], str(d[2])) if len(d) > 2 else "?", canon_w(toks, step))
     if toks and toks[0] == 4:
         return "C05:ranker:%s:%s" % (d, " ".join(map(str, toks[:120])))
+    if toks and toks[0] in (3, 5):
+        return "C05:%s:%s:%s" % ({3: "sync", 5: "dialpeer"}[toks[0]], d, " ".join(map(str, toks[:160])))
     return "C05:%s:%s" % (toks[:1], d)
 
 
@@ -212,7 +218,9 @@ def what(tag, toks, d):
     step = d[1] if len(d) > 1 else "?"
     kind = toks[0] if toks else 0
     clause = (WCLAUSE if kind == 2 else CLAUSE).get(d[2], str(d[2])) if len(d) > 2 else "?"
-    comp = {1: "dial limiter", 2: "dial worker", 4: "DefaultDialRanker"}.get(kind, "?")
+    comp = {1: "dial limiter", 2: "dial worker", 3: "dialSync", 4: "DefaultDialRanker", 5: "Swarm.DialPeer"}.get(kind, "?")
+    if kind == 3:
+        clause = {1: "caller-return-not-exactly-once-or-not-prompt", 2: "refcount/worker/shared-context", 3: "reqch-closed-before-context-cancelled"}.get(d[2] if len(d) > 2 else 0, "?")
     if kind == 4:
         clause = {1: "output-is-not-a-permutation-of-input", 2: "negative-delay"}.get(d[2] if len(d) > 2 else 0, "?")
     return "%s trace violates clause '%s' at step %s (diag %s)" % (comp, clause, step, d)
